@@ -129,6 +129,13 @@ func kindErr(k string) error {
 	return nil
 }
 
+func (s *scripted) unlockedPause() {
+	runtime.GC()
+	time.Sleep(2 * time.Millisecond)
+	runtime.GC()
+	runtime.Gosched()
+}
+
 func (s *scripted) Read(p []byte) (int, error) {
 	if s.lock {
 		s.mu.Lock()
@@ -148,6 +155,11 @@ func (s *scripted) Read(p []byte) (int, error) {
 	stepOnce := false
 	if s.si < len(s.steps) {
 		st := &s.steps[s.si]
+		if st.GC {
+			// a slow read during which the process collects garbage and runs finalizers
+			s.unlockedPause()
+			st.GC = false
+		}
 		if st.N <= len(p) {
 			want = st.N
 			stepErr = st.E
@@ -399,7 +411,15 @@ func (st *state) exec(op *plan.Op, shared *scripted) (res plan.Res) {
 			res.B, res.OutOK = &b, true
 		case "seed":
 			out := bip39.MnemonicToSeed(s, p)
-			res.Out, res.OutOK = outHex(out), true
+			// the caller copies the seed and wipes the slice it was given at once, as a
+			// careful wallet does: what other callers hold must not change
+			keep := append([]byte(nil), out...)
+			if !op.Keep {
+				for i := range out {
+					out[i] = 0
+				}
+			}
+			res.Out, res.OutOK = outHex(keep), true
 			if out == nil {
 				res.Info = append(res.Info, "nil")
 			}
